@@ -5,6 +5,7 @@ CONSTANTS
   HazardNames = {"mb2", "mb3", "mb4", "mbrun", "crlf", "crcr", "name", "namesp", "comment", "cdata", "charref", "etag", "pi", "attrmb", "badcdend", "badetag", "badbyte", "badcont", "trunc"}
   Parts <- PartsQuick
   FileReads <- FileReadsDef
+  DeclNames = {"decl-utf8", "decl-latin1", "decl-ascii", "decl-sjis", "decl-long", "bom-utf8", "nodecl-mb"}
 CONSTRAINT Emit
 INVARIANT Placed
 CHECK_DEADLOCK FALSE
